@@ -17,7 +17,15 @@ Definition key_image (t k : Z) : Z :=
 Section ReorderFree.
   Definition c19e_fuel : nat := 64%nat.
   Definition wrf (g : gval) : wst := write_free c19e_fuel [] g.
-  Definition same_outf (a b : wst) : bool := (snd a =? 0) && (snd b =? 0) && bytes_eqb (fst a) (fst b).
+  (* the case value [a] (already re-ordered) reads back, from its own model output, as the value [b] read from the
+     implementation's output (bytes cannot be compared: what was read back has lost the Go integer types) *)
+  Definition same_outf (a b : gval) : bool :=
+    let w := wrf a in
+    (snd w =? 0) &&
+    match read_free false true true c19e_fuel (write_free_type a) (fst w) with
+    | Some (p, []) => gval_same p b
+    | _ => false
+    end.
   Definition dereff (g : gval) : gval := match g with GPtr x => if ptr_target_ok x then x else g | _ => g end.
 
   Fixpoint reorder_free (fuel : nat) (g gr : gval) : gval :=
@@ -39,9 +47,9 @@ Section ReorderFree.
       | GMapA es, GMapA er =>
         GMapA (pick_by (fun (o : gval * gval) (x : gval * gval) =>
                           let k' := reorder_free f (fst x) (fst o) in
-                          if same_outf (wrf (dereff k')) (wrf (dereff (fst o))) then
+                          if same_outf (dereff k') (dereff (fst o)) then
                             let v' := reorder_free f (snd x) (snd o) in
-                            if same_outf (wrf v') (wrf (snd o)) then Some (k', v') else None
+                            if same_outf v' (snd o) then Some (k', v') else None
                           else None) es er)
       | GMapA es, GMapS er =>          (* string keys in a map[interface{}] come back as map[string] *)
         GMapA (pick_by (fun (o : list Z * gval) (x : gval * gval) =>
@@ -54,7 +62,7 @@ Section ReorderFree.
                           match fst x with
                           | GInt t k => if key_image t k =? fst o then
                                           let v' := reorder_free f (snd x) (snd o) in
-                                          if same_outf (wrf v') (wrf (snd o)) then Some (fst x, v') else None
+                                          if same_outf v' (snd o) then Some (fst x, v') else None
                                         else None
                           | _ => None
                           end) es er)
@@ -68,6 +76,34 @@ Fixpoint count_byte (x : Z) (l : list Z) : Z :=
   match l with [] => 0 | y :: r => (if x =? y then 1 else 0) + count_byte x r end.
 Definition same_bytes_multiset (a b : list Z) : bool :=
   (length a =? length b)%nat && forallb (fun x => count_byte x a =? count_byte x b) a.
+
+(* a nil somewhere in the value: GoType2ThriftType panics on it, and whether the panic or another element's error comes
+   first depends on the iteration order *)
+Fixpoint has_nil (g : gval) : bool :=
+  match g with
+  | GNil => true
+  | GList l => existsb has_nil l
+  | GMapS es => existsb (fun e => has_nil (snd e)) es
+  | GMapI _ es => existsb (fun e => has_nil (snd e)) es
+  | GMapA es => existsb (fun e => has_nil (fst e) || has_nil (snd e)) es
+  | GStructN fs => existsb (fun e => has_nil (snd e)) fs
+  | GPtr g' => has_nil g'
+  | _ => false
+  end.
+
+(* a slice / map whose elements (keys, values) do not all have the same Thrift type: no Thrift value stands for it, and what
+   WriteAny makes of it (header types, which element fails first) depends on the iteration order *)
+Fixpoint hetero (g : gval) : bool :=
+  match g with
+  | GList l => negb (all_same (map go_type l)) || existsb hetero l
+  | GMapS es => negb (all_same (map (fun e => go_type (snd e)) es)) || existsb (fun e => hetero (snd e)) es
+  | GMapI _ es => negb (all_same (map (fun e => go_type (snd e)) es)) || existsb (fun e => hetero (snd e)) es
+  | GMapA es => negb (all_same (map (fun e => go_type (fst e)) es)) || negb (all_same (map (fun e => go_type (snd e)) es))
+                || existsb (fun e => hetero (fst e) || hetero (snd e)) es
+  | GStructN fs => existsb (fun e => hetero (snd e)) fs
+  | GPtr g' => hetero g'
+  | _ => false
+  end.
 
 (* 1927. fields: sliceAsSet, value.., code (0 nil, 1 error, 3 panic), returned type, buffer *)
 Definition check_1927 (fs : list field) : verdict :=
@@ -83,12 +119,16 @@ Definition check_1927 (fs : list field) : verdict :=
       if negb (gval_same g g1) then VBad 97 [] else
       let r := wrf g1 in
       if snd r =? 2 then VSkip
-      else if negb (snd r =? wc) then VBad 1 [FZ (snd r); FB (fst r)]
+      else if negb (snd r =? wc) then
+        (* a value that holds a nil (panic) beside another failing element, or a heterogeneous container: which element
+           decides the outcome is the iteration order's choice, and the order of a failed run cannot be recovered *)
+        (if has_nil g || hetero g then VDrift 8 else VBad 1 [FZ (snd r); FB (fst r)])
       else if negb (wc =? 0) then VOk
       (* a heterogeneous slice / map (a deviant value) is written without error into bytes that are no Thrift value: the
          iteration order cannot be recovered from them; the comparison degrades to "same bytes up to order" (drift) *)
       else if match back with Some (_, []) => false | _ => true end then
-        (if same_bytes_multiset (fst r) buf && (rt =? write_free_type g1) then VDrift 7 else VBad 4 [FB (fst r)])
+        (if same_bytes_multiset (fst r) buf && (rt =? write_free_type g1) then VDrift 7
+         else if hetero g then VDrift 9 else VBad 4 [FB (fst r)])
       else vand (expect 2 (bytes_eqb (fst r) buf) [FB (fst r)]) (expect 3 (rt =? write_free_type g1) [FZ (write_free_type g1)])
     | _ => VBad 99 []
     end
